@@ -683,7 +683,7 @@ def gen_inventory_files(rng, files):
             files[f"{key}.inv"] = {"inv": [["py", "function", "f\udcff", "a", "-"]] if False else [["py", "function", "f", "a", "\xff"]], "latin1": 1}
             invs[key] = [f"https://{key}.e.org/", f"__DIR__/{key}.inv"]
         else:
-            invs[key] = [pick(rng, ["http://127.0.0.1:1/", "https://127.0.0.1:1/x"]), None]
+            invs[key] = [f"http://127.0.0.1:1/{key}/", None]
     return invs
 
 
